@@ -2,6 +2,7 @@ package main
 
 import (
 	"encoding/json"
+	"os/exec"
 	"fmt"
 	"os"
 	"path/filepath"
@@ -262,6 +263,26 @@ func (s *Session) report(id string, cfg *CheckConfig, dev bool, t0 time.Time, lo
 		"assumptions": assumptions,
 		"wall_s":      time.Since(t0).Seconds(),
 		"violations":  nviol,
+	}
+	if s.tier == "thorough" && os.Getenv("VERIF_NO_SELFTEST") == "" {
+		// must-fail corpus: property-breaking changes applied to scratch copies must be reported by the quick check
+		cmd := exec.Command(filepath.Join(verifRoot, "selftest", "run.sh"), id)
+		cmd.Env = append(os.Environ(), "VERIF_NO_SELFTEST=1")
+		out, _ := cmd.CombinedOutput()
+		var lines []string
+		caught, missed := 0, 0
+		for _, l := range strings.Split(string(out), "\n") {
+			switch {
+			case strings.HasPrefix(l, "CAUGHT"):
+				caught++
+				lines = append(lines, trunc(l, 260))
+			case strings.HasPrefix(l, "MISSED"), strings.HasPrefix(l, "SKIP"):
+				missed++
+				lines = append(lines, trunc(l, 260))
+			}
+		}
+		cov["must_fail_corpus"] = map[string]any{"caught": caught, "missed_or_skipped": missed, "results": lines}
+		fmt.Printf("%s: must-fail corpus: %d caught, %d missed/skipped\n", id, caught, missed)
 	}
 	os.MkdirAll(filepath.Join(verifRoot, "evidence"), 0o755)
 	b, _ := json.MarshalIndent(ev, "", " ")
